@@ -659,13 +659,24 @@ func executePhis(fr *frame) []ssa.Instruction {
 	return nonPhis
 }
 
+func panicString(i *interpreter, p interface{}) string {
+	switch v := p.(type) {
+	case targetPanic:
+		return panicText(i, v)
+	case runtime.Error:
+		return v.Error()
+	}
+	return fmt.Sprint(p)
+}
+
 func doRecover(caller *frame) value {
 	if caller != nil && !caller.panicking &&
 		caller.caller != nil && caller.caller.panicking {
 		caller.caller.panicking = false
 		p := caller.caller.panic
 		caller.caller.panic = nil
-		caller.i.x.recovered = append(caller.i.x.recovered, fmt.Sprint(p))
+		caller.i.x.recovered = append(caller.i.x.recovered, panicString(caller.i, p))
+		caller.i.x.lastRecoverSite = caller.i.x.panicSite
 		caller.i.x.panicSite = ""
 		switch p := p.(type) {
 		case targetPanic:
